@@ -506,6 +506,17 @@ Step ==
                  \o (IF e.size <= e.limit /\ e.status # 200 THEN <<V("C10", "body_within_limit_refused", "", [size |-> e.size, limit |-> e.limit, status |-> e.status])>> ELSE <<>>)
                  \o (IF e.consumed > e.limit + 65536 THEN <<V("C10", "oversized_body_consumed", "", [consumed |-> e.consumed, limit |-> e.limit])>> ELSE <<>>)
             /\ UNCHANGED <<cfg, Rq, Cn>>
+       [] e.e = "openwin" ->
+            \* the constructor window (family direct): the peer's connection failed or closed while the handshaking goroutine was
+            \* held inside the constructor. The application must not be handed a session whose transport was already gone, and
+            \* by now (a full heartbeat period later) the table must not hold it
+            /\ S' = SS
+            /\ viol' = viol \o tv
+                 \o (IF e.held /\ e.handed /\ e.trs = "closed"
+                     THEN <<V("C03", "handed_over_after_transport_closed", "", [point |-> e.point, fault |-> e.fault])>> ELSE <<>>)
+                 \o (IF e.held /\ e.left # 0
+                     THEN <<V("C04", "dead_session_left_in_table", "", [point |-> e.point, fault |-> e.fault, left |-> e.left])>> ELSE <<>>)
+            /\ UNCHANGED <<cfg, Rq, Cn>>
        [] e.e = "hostile.done" ->
             \* work in proportion to the bytes received: a generous fixed budget plus a per-kilobyte allowance of CPU time
             /\ S' = SS
